@@ -1,0 +1,37 @@
+// Copyright 2020-2025 Buf Technologies, Inc.
+//
+// Licensed under the Apache License, Version 2.0 (the "License");
+// you may not use this file except in compliance with the License.
+// You may obtain a copy of the License at
+//
+//      http://www.apache.org/licenses/LICENSE-2.0
+//
+// Unless required by applicable law or agreed to in writing, software
+// distributed under the License is distributed on an "AS IS" BASIS,
+// WITHOUT WARRANTIES OR CONDITIONS OF ANY KIND, either express or implied.
+// See the License for the specific language governing permissions and
+// limitations under the License.
+
+
+//go:build verif
+
+package bufcli
+
+// Contracts for the gocv verifier (see /verif/DESIGN.md), author ca-r4g. Comment-only.
+// NewConnectClientConfig / NewConnectClientConfigWithToken / newConnectClientConfigWithOptions (which token sources, in which
+// order): zz_verif_contracts_w.go. bufapp.NewConfig (verified) and appext.ReadConfig: /verif/specs/R4g.spec.
+//
+// C19: the CLI configuration (config.yaml: version + TLS settings) that every registry client is built from. It is read
+// from the container's configuration directory only; a read / parse / version / TLS error means NO configuration (so no
+// client, and no request carrying a token, is ever built from a half-read configuration); it installs no token source and
+// writes no header.
+//@ func newConfig(container) (r, err)
+//@   property C19
+//@   modifies heap, ghost.rg_cfgReads, ghost.rg_cfgReadErr
+//@   ensures error-means-no-configuration: err != nil ==> r == nil
+//@   ensures success-means-a-configuration: err == nil ==> r != nil
+//@   ensures read-once-from-this-container: ghost.rg_cfgReads == add(old(ghost.rg_cfgReads), container)
+//@   ensures read-error-returned: ghost.rg_cfgReadErr != nil ==> err == ghost.rg_cfgReadErr && r == nil
+//@   ensures no-token-source-installed: ghost.w_authSources == old(ghost.w_authSources) && ghost.hdrVals == old(ghost.hdrVals) && ghost.hdrKeys == old(ghost.hdrKeys)
+//@   canary ensures err != nil
+//@   canary ensures err == nil
